@@ -90,6 +90,8 @@ class World:
         self.exclusions = []
         self.shadow = None  # {"version": str, "entries": {rel: md5}} as the harness believes the cache file to be
         self.mtime = 1_700_000_000
+        self.old = 1_000_000_000
+        self.preserve_old_mtime = (len(json.dumps(history)) % 3) != 0  # two thirds of the histories; the rest keeps "now"
         for i, p in enumerate(PATHS):
             self.write(p, CONTENTS[i])
 
@@ -103,6 +105,11 @@ class World:
         os.makedirs(os.path.dirname(self.abs(rel)), exist_ok=True)
         with open(self.abs(rel), "wb") as f:
             f.write(data)
+        # content is what identifies a file, not its timestamp: written files keep an OLD modification time, as after cp -p,
+        # rsync -t, an archive extraction or a back-dating tool; only `touch` moves a file's time forward
+        self.old += 1
+        if self.preserve_old_mtime:
+            os.utime(self.abs(rel), (self.old, self.old))
 
     def read(self, rel):
         try:
